@@ -60,6 +60,13 @@ def native_replay(spec, timeout=300):
 
 
 def finding_applies(f, ob):
+    if ob.kind == "kn":
+        if f.get("harness") != ob.func:
+            return False
+        for k, v in (f.get("partition") or {}).items():
+            if ob.args.get(k, v) != v:
+                return False
+        return True
     if f.get("harness") != ob.harness:
         return False
     for k, v in (f.get("partition") or {}).items():
@@ -177,6 +184,7 @@ def main(argv):
     violations = []
     machinery = []
     inconclusive = []
+    known_hits = []
     discharged = 0
     nontrivial = 0
     smt_queries = 0
@@ -195,7 +203,10 @@ def main(argv):
                 w = r.get("witness") or {}
                 rs = w.get("replay")
                 rep = native_replay(rs) if rs else None
-                if rep:
+                tol = [f for f in live_findings if finding_applies(f, ob)]
+                if rep and any(rep.startswith(f["reason_prefix"]) for f in tol):
+                    known_hits.append(f"{ob.name}: {rep[:160]}")
+                elif rep:
                     violations.append((ob, rs, rep, r))
                 else:
                     machinery.append(f"{ob.name}: solver witness does not reproduce natively ({w})")
@@ -298,6 +309,7 @@ def main(argv):
             "solver_cpu_s": round(solver_cpu, 1), "samples": samples,
             "checker_cmd": f"./vcheck {pid} {tier}",
             "known_findings_reported": [f.get("id") for f in live_findings],
+            "obligations_stopped_at_known_finding": known_hits,
             "repo": REPO,
         },
         "assumptions": spec.assumptions,
